@@ -538,8 +538,26 @@ func specMapped(m *mappedFile) bool {
 //@   at call Load#3: after assume result != nil && result.file != nil
 //@   modifies heap, $ledger, $lost, $refreshed, $touched
 
+// Replacing the current mapping (see the comment on file.current): a mapping taken
+// out of f.current may be closed only after the counters that point into it were
+// invalidated. newCounter1 hands the work to its caller as a cleanup function,
+// to be run after the mutex is released: whenever it has stored a new mapping,
+// the cleanup is the function literal that invalidates the counters and then
+// closes the previous mapping; otherwise it is nop.
+//@ ghost swapped bool
+//@ ghost invalidated bool
 //@ contract (*file).newCounter1
-//@   modifies heap, $minsize, $fsops, $tried
+//@   at call Lock#1: ghost $swapped = false
+//@   at call Store#1: ghost $swapped = true
+//@   ensures $swapped ==> funcname(cleanup, "newCounter1$1")
+//@   ensures !$swapped ==> funcname(cleanup, "nop")
+//@   modifies heap, $minsize, $fsops, $tried, $swapped
+
+//@ contract newCounter1$1
+//@   requires f != nil && current != nil && $rd == 0 && $lk == 0 && (current.mapping == nil || mmap.SpecValid(current.mapping))
+//@   at call invalidateCounters#1: after ghost $invalidated = true
+//@   at call close#1: assert $invalidated
+//@   modifies heap, $invalidated, $ledger, $lost, $refreshed, $touched, $fsops, $minsize, $tried
 
 //@ contract (*file).rotate1
 //@   requires $rd == 0 && $lk == 0
